@@ -36,10 +36,13 @@ func SetApd(r *apd.Decimal, d dec.D) {
 	if d.C != nil && d.C.BitLen() <= 128 && heapHistory(d) {
 		// start from a different small value so that the inline words left
 		// behind are stale and non-zero, go beyond 128 bits, come back
-		r.Coeff.SetInt64(0x1234567)
+		// (the stale value varies: 1, 0, 10, a two-word value, ...: code that
+		// forgets to ask where the value lives reads it instead of the real one)
+		stale := []int64{0x1234567, 1, 10, 0, 2, 999999999999999999, 1 << 62}[uint64(d.E*7+int64(d.C.BitLen()))%7]
+		r.Coeff.SetInt64(stale)
 		r.Coeff.Add(&r.Coeff, bigBump)
 		var delta apd.BigInt
-		delta.SetMathBigInt(new(big.Int).Sub(d.C, big.NewInt(0x1234567)))
+		delta.SetMathBigInt(new(big.Int).Sub(d.C, big.NewInt(stale)))
 		r.Coeff.Add(&r.Coeff, &delta)
 		r.Coeff.Sub(&r.Coeff, bigBump)
 	}
